@@ -17,7 +17,7 @@ use write_fonts::{
     dump_table,
     tables::{
         gpos::{
-            builders::{AnchorBuilder, MarkToBaseBuilder, PairPosBuilder, ValueRecordBuilder},
+            builders::{AnchorBuilder, CursivePosBuilder, MarkToBaseBuilder, MarkToLigBuilder, MarkToMarkBuilder, PairPosBuilder, SinglePosBuilder, ValueRecordBuilder},
             Gpos, PositionLookup, PositionLookupList,
         },
         layout::{
@@ -534,10 +534,56 @@ struct MB {
     bases: Vec<(u16, u8, u8, i16)>,
     bblock: Option<BBlock>,
 }
+/// one ligature glyph: `comps` components; per class one component-anchor list given as a bit mask (bit k = component k
+/// has an anchor), so None entries occur at leading / middle / trailing positions; classes not listed are absent
+#[derive(Clone, Debug, Serialize, Deserialize)]
+struct LigSpec {
+    glyph: u16,
+    comps: u8,
+    /// use add_ligature_components_directly instead of one insert_ligature call per class
+    direct: bool,
+    /// (class, mask, anchor palette, salt); a (glyph, class) is offered once
+    classes: Vec<(u8, u8, u8, i16)>,
+}
+#[derive(Clone, Debug, Serialize, Deserialize)]
+struct LBlock {
+    start: u16,
+    n: u16,
+    stride: u8,
+    comps_a: u8,
+    mask_coef: u16,
+    density: u8,
+    apal: u8,
+    coef: u16,
+}
+#[derive(Clone, Debug, Serialize, Deserialize)]
+struct LB {
+    n_classes: u8,
+    marks: Vec<(u16, u8, u8, i16)>,
+    mblock: Option<MBlock>,
+    ligs: Vec<LigSpec>,
+    lblock: Option<LBlock>,
+}
+/// cursive: (glyph, mode, anchor palette, salt), mode bit 0 = entry anchor, bit 1 = exit anchor; block (start, n, stride, apal, coef)
+#[derive(Clone, Debug, Serialize, Deserialize)]
+struct CB {
+    items: Vec<(u16, u8, u8, i16)>,
+    block: Option<(u16, u16, u8, u8, u16)>,
+}
+/// single adjustment: (glyph, value palette, salt); block (start, n, stride, pal, pal span, coef, distinct salts)
+#[derive(Clone, Debug, Serialize, Deserialize)]
+struct SB {
+    items: Vec<(u16, u8, i16)>,
+    block: Option<(u16, u16, u8, u8, u8, u16, u8)>,
+}
 #[derive(Clone, Debug, Serialize, Deserialize)]
 enum LKind {
     Pair(Vec<PB>),
     Mark(Vec<MB>),
+    MarkMark(Vec<MB>),
+    Lig(Vec<LB>),
+    Curs(Vec<CB>),
+    Single(Vec<SB>),
 }
 #[derive(Clone, Debug, Serialize, Deserialize)]
 struct LSpec {
@@ -728,6 +774,15 @@ impl Pal {
         }
         a
     }
+    /// the adjustment of a single-glyph rule: record 1 of the palette entry only
+    fn adj1(&self, p: usize, salt: i16) -> Adj {
+        let mut a = self.adj(p, salt);
+        for k in 4..8 {
+            a.v[k] = 0;
+            a.d[k] = DevK::None;
+        }
+        a
+    }
     fn adj_matches(&self, got: &Adj, p: usize, salt: i16) -> bool {
         for r in 0..2 {
             let rec = &self.vals[p][r];
@@ -770,6 +825,9 @@ impl Adj {
     fn is_zero(&self) -> bool {
         self.v.iter().all(|v| *v == 0) && self.d.iter().all(dev_nil)
     }
+}
+fn adj_equiv(a: &Adj, b: &Adj) -> bool {
+    a.v == b.v && a.d.iter().zip(&b.d).all(|(x, y)| dev_equiv(x, y))
 }
 /// an anchor as seen by a shaper
 #[derive(Clone, Debug)]
@@ -1028,9 +1086,189 @@ fn expect_mark<'a>(bs: &'a [MBModel], mark: u16, base: u16) -> Option<(&'a (u8, 
     None
 }
 
+type MarkInfo = (u8, usize, i16);
+fn marks_model(nc: u32, explicit: &[(u16, u8, u8, i16)], block: &Option<MBlock>, pal: &Pal) -> (Vec<(u16, u8, usize, i16)>, BTreeMap<u16, MarkInfo>) {
+    let mut ops = Vec::new();
+    let mut marks = BTreeMap::new();
+    let mut add = |g: u16, c: u8, p: usize, s: i16| {
+        if !marks.contains_key(&g) {
+            marks.insert(g, (c, p, s));
+            ops.push((g, c, p, s));
+        }
+    };
+    for (g, c, p, s) in explicit {
+        add(*g, (*c as u32 % nc) as u8, pal.anchor_ix(*p), *s);
+    }
+    if let Some(m) = block {
+        for k in 0..m.n as u32 {
+            let g = m.start as u32 + k * m.stride.max(1) as u32;
+            if g > 65535 {
+                break;
+            }
+            let c = if m.interleave { k % nc } else { k * nc / m.n as u32 };
+            add(g as u16, c as u8, pal.anchor_ix(m.apal.wrapping_add(((k * m.coef as u32) % 5 * 51) as u8)), k.wrapping_mul(m.coef as u32) as i16);
+        }
+    }
+    (ops, marks)
+}
+
+struct LigM {
+    comps: u8,
+    direct: bool,
+    /// insert_ligature calls: (class, per component an optional anchor)
+    calls: Vec<(u8, Vec<Option<(usize, i16)>>)>,
+    anchors: BTreeMap<(u8, u8), (usize, i16)>,
+}
+struct LBModel {
+    mark_ops: Vec<(u16, u8, usize, i16)>,
+    marks: BTreeMap<u16, MarkInfo>,
+    /// ligature glyphs in insertion order
+    order: Vec<u16>,
+    ligs: BTreeMap<u16, LigM>,
+}
+fn lb_model(b: &LB, pal: &Pal) -> LBModel {
+    let nc = b.n_classes.clamp(1, 8) as u32;
+    let (mark_ops, marks) = marks_model(nc, &b.marks, &b.mblock, pal);
+    let used: BTreeSet<u8> = marks.values().map(|v| v.0).collect();
+    let mut order = Vec::new();
+    let mut ligs: BTreeMap<u16, LigM> = BTreeMap::new();
+    let mut add = |glyph: u16, comps: u8, direct: bool, classes: &[(u8, u8, u8, i16)]| {
+        if ligs.contains_key(&glyph) {
+            return;
+        }
+        let comps = comps.clamp(1, 5);
+        let mut m = LigM { comps, direct, calls: Vec::new(), anchors: BTreeMap::new() };
+        for (c, mask, ap, salt) in classes {
+            let c = (*c as u32 % nc) as u8;
+            if !used.contains(&c) || m.calls.iter().any(|x| x.0 == c) {
+                continue;
+            }
+            let list: Vec<Option<(usize, i16)>> = (0..comps).map(|k| ((mask >> k) & 1 == 1).then(|| (pal.anchor_ix(*ap), salt.wrapping_add(k as i16 * 131)))).collect();
+            for (k, a) in list.iter().enumerate() {
+                if let Some(a) = a {
+                    m.anchors.insert((c, k as u8), *a);
+                }
+            }
+            m.calls.push((c, list));
+        }
+        if m.calls.is_empty() && !direct {
+            return; // nothing is said about this glyph
+        }
+        order.push(glyph);
+        ligs.insert(glyph, m);
+    };
+    for l in &b.ligs {
+        add(l.glyph, l.comps, l.direct, &l.classes);
+    }
+    if let Some(lb) = &b.lblock {
+        for k in 0..lb.n as u32 {
+            let g = lb.start as u32 + k * lb.stride.max(1) as u32;
+            if g > 65535 {
+                break;
+            }
+            let mut classes = Vec::new();
+            for c in 0..nc {
+                let h = (k * (lb.coef as u32 | 1)).wrapping_add(c * 89).wrapping_add(k * c);
+                if (h % 256) < lb.density as u32 {
+                    let mask = ((k * (lb.mask_coef as u32 | 1) + c * 11) >> 2) as u8;
+                    classes.push((c as u8, mask, lb.apal.wrapping_add(((k + c) % 4 * 67) as u8), k.wrapping_mul(lb.coef as u32).wrapping_add(c * 577) as i16));
+                }
+            }
+            add(g as u16, 1 + ((k * lb.comps_a as u32) % 5) as u8, k % 7 == 3, &classes);
+        }
+    }
+    LBModel { mark_ops, marks, order, ligs }
+}
+fn expect_lig<'a>(bs: &'a [LBModel], mark: u16, lig: u16, comp: u8) -> Option<(&'a MarkInfo, &'a (usize, i16))> {
+    for b in bs {
+        if let (Some(m), Some(l)) = (b.marks.get(&mark), b.ligs.get(&lig)) {
+            if let Some(a) = l.anchors.get(&(m.0, comp)) {
+                return Some((m, a));
+            }
+        }
+    }
+    None
+}
+
+/// cursive / single: glyph -> data; within a lookup a glyph belongs to the first builder that mentions it
+struct CBModel {
+    ops: Vec<(u16, u8, usize, i16)>,
+    items: BTreeMap<u16, (u8, usize, i16)>,
+}
+fn cb_models(bs: &[CB], pal: &Pal) -> Vec<CBModel> {
+    let mut taken: BTreeSet<u16> = BTreeSet::new();
+    bs.iter()
+        .map(|b| {
+            let mut m = CBModel { ops: Vec::new(), items: BTreeMap::new() };
+            let mut add = |g: u16, mode: u8, p: usize, s: i16| {
+                if taken.insert(g) {
+                    m.items.insert(g, (mode & 3, p, s));
+                    m.ops.push((g, mode & 3, p, s));
+                }
+            };
+            for (g, mode, p, s) in &b.items {
+                add(*g, *mode, pal.anchor_ix(*p), *s);
+            }
+            if let Some((start, n, stride, ap, coef)) = &b.block {
+                for k in 0..*n as u32 {
+                    let g = *start as u32 + k * (*stride).max(1) as u32;
+                    if g > 65535 {
+                        break;
+                    }
+                    add(g as u16, ((k * (*coef as u32 | 1)) >> 3) as u8, pal.anchor_ix(ap.wrapping_add((k % 3 * 83) as u8)), k.wrapping_mul(*coef as u32) as i16);
+                }
+            }
+            m
+        })
+        .collect()
+}
+struct SBModel {
+    ops: Vec<(u16, usize, i16)>,
+    items: BTreeMap<u16, (usize, i16)>,
+}
+fn sb_model(b: &SB, pal: &Pal) -> SBModel {
+    let mut m = SBModel { ops: Vec::new(), items: BTreeMap::new() };
+    let mut add = |g: u16, p: usize, s: i16| {
+        if !m.items.contains_key(&g) {
+            m.items.insert(g, (p, s));
+            m.ops.push((g, p, s));
+        }
+    };
+    for (g, p, s) in &b.items {
+        add(*g, pal.val_ix(*p), *s);
+    }
+    if let Some((start, n, stride, p0, pn, coef, salts)) = &b.block {
+        for k in 0..*n as u32 {
+            let g = *start as u32 + k * (*stride).max(1) as u32;
+            if g > 65535 {
+                break;
+            }
+            let h = k.wrapping_mul(*coef as u32 | 1);
+            add(g as u16, pal.val_ix(p0.wrapping_add(((h >> 4) % (*pn).max(1) as u32 * 37) as u8)), ((h >> 7) % (*salts).max(1) as u32) as i16);
+        }
+    }
+    m
+}
+
 enum LModel {
     Pair(Vec<PBModel>),
     Mark(Vec<MBModel>),
+    MarkMark(Vec<MBModel>),
+    Lig(Vec<LBModel>),
+    Curs(Vec<CBModel>),
+    Single(Vec<SBModel>),
+}
+impl LModel {
+    fn name(&self) -> &'static str {
+        match self {
+            LModel::Pair(_) => "PairPos",
+            LModel::Mark(_) => "MarkToBase",
+            LModel::MarkMark(_) => "MarkToMark",
+            LModel::Lig(_) => "MarkToLig",
+            LModel::Curs(_) => "Cursive",
+            LModel::Single(_) => "SinglePos",
+        }
+    }
 }
 
 // =================================================================================================================
@@ -1140,31 +1378,83 @@ enum PSub<'a> {
     F1 { cov: rl::CoverageTable<'a>, t: rg::PairPosFormat1<'a> },
     F2 { cov: rl::CoverageTable<'a>, cd1: rl::ClassDef<'a>, cd2: rl::ClassDef<'a>, t: rg::PairPosFormat2<'a> },
 }
+enum BaseArr<'a> {
+    Base(rg::BaseArray<'a>),
+    Mark2(rg::Mark2Array<'a>),
+}
+/// MarkToBase or MarkToMark subtable
 struct MSub<'a> {
     mcov: rl::CoverageTable<'a>,
     bcov: rl::CoverageTable<'a>,
     marks: rg::MarkArray<'a>,
-    bases: rg::BaseArray<'a>,
+    bases: BaseArr<'a>,
     classes: u16,
 }
-enum Subs<'a> {
-    Pair(Vec<PSub<'a>>),
-    Mark(Vec<MSub<'a>>),
+struct LSub<'a> {
+    mcov: rl::CoverageTable<'a>,
+    lcov: rl::CoverageTable<'a>,
+    marks: rg::MarkArray<'a>,
+    ligs: rg::LigatureArray<'a>,
+    classes: u16,
+}
+struct CSub<'a> {
+    cov: rl::CoverageTable<'a>,
+    t: rg::CursivePosFormat1<'a>,
+}
+struct SSub<'a> {
+    cov: rl::CoverageTable<'a>,
+    t: rg::SinglePos<'a>,
+}
+enum AnySub<'a> {
+    Pair(PSub<'a>),
+    Mark(MSub<'a>),
+    MarkMark(MSub<'a>),
+    Lig(LSub<'a>),
+    Curs(CSub<'a>),
+    Single(SSub<'a>),
+}
+impl AnySub<'_> {
+    fn name(&self) -> &'static str {
+        match self {
+            AnySub::Pair(_) => "PairPos",
+            AnySub::Mark(_) => "MarkToBase",
+            AnySub::MarkMark(_) => "MarkToMark",
+            AnySub::Lig(_) => "MarkToLig",
+            AnySub::Curs(_) => "Cursive",
+            AnySub::Single(_) => "SinglePos",
+        }
+    }
 }
 struct OutLookup<'a> {
     ext: bool,
     flag: u16,
     mark_set: Option<u16>,
-    subs: Subs<'a>,
+    subs: Vec<AnySub<'a>>,
 }
-fn psub<'a>(p: rg::PairPos<'a>) -> Result<PSub<'a>, Fail> {
-    Ok(match p {
+fn psub<'a>(p: rg::PairPos<'a>) -> Result<AnySub<'a>, Fail> {
+    Ok(AnySub::Pair(match p {
         rg::PairPos::Format1(t) => PSub::F1 { cov: rd(t.coverage(), "pairpos 1 coverage")?, t },
         rg::PairPos::Format2(t) => PSub::F2 { cov: rd(t.coverage(), "pairpos 2 coverage")?, cd1: rd(t.class_def1(), "class_def1")?, cd2: rd(t.class_def2(), "class_def2")?, t },
-    })
+    }))
 }
-fn msub<'a>(t: rg::MarkBasePosFormat1<'a>) -> Result<MSub<'a>, Fail> {
-    Ok(MSub { mcov: rd(t.mark_coverage(), "mark coverage")?, bcov: rd(t.base_coverage(), "base coverage")?, marks: rd(t.mark_array(), "mark array")?, bases: rd(t.base_array(), "base array")?, classes: t.mark_class_count() })
+fn msub<'a>(t: rg::MarkBasePosFormat1<'a>) -> Result<AnySub<'a>, Fail> {
+    Ok(AnySub::Mark(MSub { mcov: rd(t.mark_coverage(), "mark coverage")?, bcov: rd(t.base_coverage(), "base coverage")?, marks: rd(t.mark_array(), "mark array")?, bases: BaseArr::Base(rd(t.base_array(), "base array")?), classes: t.mark_class_count() }))
+}
+fn mmsub<'a>(t: rg::MarkMarkPosFormat1<'a>) -> Result<AnySub<'a>, Fail> {
+    Ok(AnySub::MarkMark(MSub { mcov: rd(t.mark1_coverage(), "mark1 coverage")?, bcov: rd(t.mark2_coverage(), "mark2 coverage")?, marks: rd(t.mark1_array(), "mark1 array")?, bases: BaseArr::Mark2(rd(t.mark2_array(), "mark2 array")?), classes: t.mark_class_count() }))
+}
+fn lsub<'a>(t: rg::MarkLigPosFormat1<'a>) -> Result<AnySub<'a>, Fail> {
+    Ok(AnySub::Lig(LSub { mcov: rd(t.mark_coverage(), "mark coverage")?, lcov: rd(t.ligature_coverage(), "ligature coverage")?, marks: rd(t.mark_array(), "mark array")?, ligs: rd(t.ligature_array(), "ligature array")?, classes: t.mark_class_count() }))
+}
+fn csub<'a>(t: rg::CursivePosFormat1<'a>) -> Result<AnySub<'a>, Fail> {
+    Ok(AnySub::Curs(CSub { cov: rd(t.coverage(), "cursive coverage")?, t }))
+}
+fn ssub<'a>(t: rg::SinglePos<'a>) -> Result<AnySub<'a>, Fail> {
+    let cov = match &t {
+        rg::SinglePos::Format1(x) => rd(x.coverage(), "singlepos 1 coverage")?,
+        rg::SinglePos::Format2(x) => rd(x.coverage(), "singlepos 2 coverage")?,
+    };
+    Ok(AnySub::Single(SSub { cov, t }))
 }
 fn open_lookups<'a>(gpos: &rg::Gpos<'a>, model: &[LModel]) -> Result<Vec<OutLookup<'a>>, Fail> {
     let ll = rd(gpos.lookup_list(), "lookup list")?;
@@ -1172,35 +1462,41 @@ fn open_lookups<'a>(gpos: &rg::Gpos<'a>, model: &[LModel]) -> Result<Vec<OutLook
     if lookups.len() != model.len() {
         return Err(fail("lookup-count", format!("compiled lookup list has {} lookups, {} were supplied", lookups.len(), model.len())));
     }
+    macro_rules! plain {
+        ($l:expr, $conv:expr) => {{
+            let subs = $l.subtables().iter().map(|s| $conv(rd(s, "subtable")?)).collect::<Result<Vec<_>, Fail>>()?;
+            OutLookup { ext: false, flag: $l.lookup_flag().to_bits(), mark_set: $l.mark_filtering_set(), subs }
+        }};
+    }
     let mut out = Vec::new();
     for (i, m) in model.iter().enumerate() {
-        let l = rd(lookups.get(i), &format!("lookup {i}"))?;
-        let bad_type = |what: &str| fail("lookup-type", format!("lookup {i}: compiled as {what}, supplied as {}", if matches!(m, LModel::Pair(_)) { "PairPos" } else { "MarkToBase" }));
-        let o = match (l, m) {
-            (rg::PositionLookup::Pair(l), LModel::Pair(_)) => {
-                let subs = l.subtables().iter().map(|s| psub(rd(s, "pairpos subtable")?)).collect::<Result<Vec<_>, _>>()?;
-                OutLookup { ext: false, flag: l.lookup_flag().to_bits(), mark_set: l.mark_filtering_set(), subs: Subs::Pair(subs) }
-            }
-            (rg::PositionLookup::MarkToBase(l), LModel::Mark(_)) => {
-                let subs = l.subtables().iter().map(|s| msub(rd(s, "markbase subtable")?)).collect::<Result<Vec<_>, _>>()?;
-                OutLookup { ext: false, flag: l.lookup_flag().to_bits(), mark_set: l.mark_filtering_set(), subs: Subs::Mark(subs) }
-            }
-            (rg::PositionLookup::Extension(l), m) => {
-                let mut ps = Vec::new();
-                let mut ms = Vec::new();
+        let o = match rd(lookups.get(i), &format!("lookup {i}"))? {
+            rg::PositionLookup::Single(l) => plain!(l, ssub),
+            rg::PositionLookup::Pair(l) => plain!(l, psub),
+            rg::PositionLookup::Cursive(l) => plain!(l, csub),
+            rg::PositionLookup::MarkToBase(l) => plain!(l, msub),
+            rg::PositionLookup::MarkToLig(l) => plain!(l, lsub),
+            rg::PositionLookup::MarkToMark(l) => plain!(l, mmsub),
+            rg::PositionLookup::Extension(l) => {
+                let mut subs = Vec::new();
                 for s in l.subtables().iter() {
-                    match (rd(s, "extension subtable")?, m) {
-                        (rg::ExtensionSubtable::Pair(e), LModel::Pair(_)) => ps.push(psub(rd(e.extension(), "extension target")?)?),
-                        (rg::ExtensionSubtable::MarkToBase(e), LModel::Mark(_)) => ms.push(msub(rd(e.extension(), "extension target")?)?),
-                        _ => return Err(fail("ext-type", format!("lookup {i}: an extension subtable wraps a different lookup type than the supplied lookup"))),
-                    }
+                    subs.push(match rd(s, "extension subtable")? {
+                        rg::ExtensionSubtable::Single(e) => ssub(rd(e.extension(), "extension target")?)?,
+                        rg::ExtensionSubtable::Pair(e) => psub(rd(e.extension(), "extension target")?)?,
+                        rg::ExtensionSubtable::Cursive(e) => csub(rd(e.extension(), "extension target")?)?,
+                        rg::ExtensionSubtable::MarkToBase(e) => msub(rd(e.extension(), "extension target")?)?,
+                        rg::ExtensionSubtable::MarkToLig(e) => lsub(rd(e.extension(), "extension target")?)?,
+                        rg::ExtensionSubtable::MarkToMark(e) => mmsub(rd(e.extension(), "extension target")?)?,
+                        _ => return Err(fail("ext-type", format!("lookup {i}: an extension subtable wraps a contextual lookup type, supplied as {}", m.name()))),
+                    });
                 }
-                OutLookup { ext: true, flag: l.lookup_flag().to_bits(), mark_set: l.mark_filtering_set(), subs: if matches!(m, LModel::Pair(_)) { Subs::Pair(ps) } else { Subs::Mark(ms) } }
+                OutLookup { ext: true, flag: l.lookup_flag().to_bits(), mark_set: l.mark_filtering_set(), subs }
             }
-            (rg::PositionLookup::Pair(_), _) => return Err(bad_type("PairPos")),
-            (rg::PositionLookup::MarkToBase(_), _) => return Err(bad_type("MarkToBase")),
-            _ => return Err(bad_type("another lookup type")),
+            _ => return Err(fail("lookup-type", format!("lookup {i}: compiled as a contextual lookup, supplied as {}", m.name()))),
         };
+        if let Some(s) = o.subs.iter().find(|s| s.name() != m.name()) {
+            return Err(fail(if o.ext { "ext-type" } else { "lookup-type" }, format!("lookup {i}: compiled{} as {}, supplied as {}", if o.ext { " (extension)" } else { "" }, s.name(), m.name())));
+        }
         out.push(o);
     }
     Ok(out)
@@ -1274,15 +1570,15 @@ struct MHit {
     class: u16,
     anchor: AK,
 }
-fn mark_hits(subs: &[MSub<'_>], mark: u16, rs: &mut Resolver<'_, '_>) -> Result<Vec<MHit>, Fail> {
+fn mark_hits<'s, 'a: 's>(subs: impl Iterator<Item = (&'s rl::CoverageTable<'a>, &'s rg::MarkArray<'a>)>, mark: u16, rs: &mut Resolver<'_, '_>) -> Result<Vec<MHit>, Fail> {
     let mut out = Vec::new();
-    for (i, s) in subs.iter().enumerate() {
-        if let Some(mi) = s.mcov.get(GlyphId16::new(mark)) {
-            let recs = s.marks.mark_records();
+    for (i, (mcov, marks)) in subs.enumerate() {
+        if let Some(mi) = mcov.get(GlyphId16::new(mark)) {
+            let recs = marks.mark_records();
             let Some(r) = recs.get(mi as usize) else {
                 return Err(fail("mark-record-index", format!("subtable {i}: coverage index {mi} of mark {mark} beyond {} mark records", recs.len())));
             };
-            let a = rd(r.mark_anchor(s.marks.offset_data()), "mark anchor")?;
+            let a = rd(r.mark_anchor(marks.offset_data()), "mark anchor")?;
             out.push(MHit { sub: i, class: r.mark_class(), anchor: rs.anchor(&a)? });
         }
     }
@@ -1295,14 +1591,90 @@ fn mark_eval(subs: &[MSub<'_>], hits: &[MHit], base: u16, rs: &mut Resolver<'_, 
         if h.class >= s.classes {
             continue;
         }
-        let recs = s.bases.base_records();
-        if bi as usize >= recs.len() {
-            return Err(fail("base-record-index", format!("subtable {}: coverage index {bi} of base {base} beyond {} base records", h.sub, recs.len())));
-        }
-        let r = rd(recs.get(bi as usize), "base record")?;
-        match r.base_anchors(s.bases.offset_data()).get(h.class as usize) {
+        let oob = |n: usize| fail("base-record-index", format!("subtable {}: coverage index {bi} of base {base} beyond {n} base records", h.sub));
+        let a = match &s.bases {
+            BaseArr::Base(b) => {
+                let recs = b.base_records();
+                if bi as usize >= recs.len() {
+                    return Err(oob(recs.len()));
+                }
+                rd(recs.get(bi as usize), "base record")?.base_anchors(b.offset_data()).get(h.class as usize)
+            }
+            BaseArr::Mark2(b) => {
+                let recs = b.mark2_records();
+                if bi as usize >= recs.len() {
+                    return Err(oob(recs.len()));
+                }
+                rd(recs.get(bi as usize), "mark2 record")?.mark2_anchors(b.offset_data()).get(h.class as usize)
+            }
+        };
+        match a {
             None => continue,
             Some(a) => return Ok(Some((h.sub, h.anchor.clone(), rs.anchor(&rd(a, "base anchor")?)?))),
+        }
+    }
+    Ok(None)
+}
+fn lig_eval(subs: &[LSub<'_>], hits: &[MHit], lig: u16, comp: u8, rs: &mut Resolver<'_, '_>) -> Result<Option<(usize, AK, AK)>, Fail> {
+    for h in hits {
+        let s = &subs[h.sub];
+        let Some(li) = s.lcov.get(GlyphId16::new(lig)) else { continue };
+        if h.class >= s.classes {
+            continue;
+        }
+        let attaches = s.ligs.ligature_attaches();
+        if li as usize >= attaches.len() {
+            return Err(fail("ligature-index", format!("subtable {}: coverage index {li} of ligature {lig} beyond {} ligature attach tables", h.sub, attaches.len())));
+        }
+        let att = rd(attaches.get(li as usize), "ligature attach")?;
+        let recs = att.component_records();
+        if comp as usize >= recs.len() {
+            continue;
+        }
+        match rd(recs.get(comp as usize), "component record")?.ligature_anchors(att.offset_data()).get(h.class as usize) {
+            None => continue,
+            Some(a) => return Ok(Some((h.sub, h.anchor.clone(), rs.anchor(&rd(a, "ligature anchor")?)?))),
+        }
+    }
+    Ok(None)
+}
+/// entry / exit anchors of the first subtable that covers the glyph
+fn curs_eval(subs: &[CSub<'_>], g: u16, rs: &mut Resolver<'_, '_>) -> Result<(Option<AK>, Option<AK>), Fail> {
+    for (i, s) in subs.iter().enumerate() {
+        if let Some(ci) = s.cov.get(GlyphId16::new(g)) {
+            let recs = s.t.entry_exit_record();
+            let Some(r) = recs.get(ci as usize) else {
+                return Err(fail("entry-exit-index", format!("subtable {i}: coverage index {ci} of glyph {g} beyond {} entry/exit records", recs.len())));
+            };
+            let mut get = |a: Option<Result<rg::AnchorTable<'_>, read_fonts::ReadError>>| -> Result<Option<AK>, Fail> {
+                match a {
+                    None => Ok(None),
+                    Some(a) => Ok(Some(rs.anchor(&rd(a, "entry/exit anchor")?)?)),
+                }
+            };
+            return Ok((get(r.entry_anchor(s.t.offset_data()))?, get(r.exit_anchor(s.t.offset_data()))?));
+        }
+    }
+    Ok((None, None))
+}
+/// the adjustment of the first subtable that covers the glyph
+fn single_eval(subs: &[SSub<'_>], g: u16, rs: &mut Resolver<'_, '_>) -> Result<Option<(usize, Adj)>, Fail> {
+    let none = rg::ValueRecord::default();
+    for (i, s) in subs.iter().enumerate() {
+        if let Some(ci) = s.cov.get(GlyphId16::new(g)) {
+            return Ok(Some((
+                i,
+                match &s.t {
+                    rg::SinglePos::Format1(t) => rs.adj(&t.value_record(), &none, t.offset_data())?,
+                    rg::SinglePos::Format2(t) => {
+                        let recs = t.value_records();
+                        if ci as usize >= recs.len() {
+                            return Err(fail("single-value-index", format!("subtable {i}: coverage index {ci} of glyph {g} beyond {} value records", recs.len())));
+                        }
+                        rs.adj(&rd(recs.get(ci as usize), "value record")?, &none, t.offset_data())?
+                    }
+                },
+            )));
         }
     }
     Ok(None)
@@ -1440,7 +1812,7 @@ fn check_pair_lookup(li: usize, c: &GposCase, pal: &Pal, bs: &[PBModel], subs: &
 
 fn check_mark_lookup(li: usize, c: &GposCase, pal: &Pal, bs: &[MBModel], subs: &[MSub<'_>], rs: &mut Resolver<'_, '_>, tally: &mut Tally, how: &str) -> CaseResult {
     let mut check_row = |mark: u16, cols: &[u16], rs: &mut Resolver<'_, '_>| -> CaseResult {
-        let hits = mark_hits(subs, mark, rs)?;
+        let hits = mark_hits(subs.iter().map(|s| (&s.mcov, &s.marks)), mark, rs)?;
         for base in cols {
             tally.queries += 1;
             let got = mark_eval(subs, &hits, *base, rs)?;
@@ -1509,6 +1881,137 @@ fn check_mark_lookup(li: usize, c: &GposCase, pal: &Pal, bs: &[MBModel], subs: &
     Ok(())
 }
 
+fn check_lig_lookup(li: usize, c: &GposCase, pal: &Pal, bs: &[LBModel], subs: &[LSub<'_>], rs: &mut Resolver<'_, '_>, tally: &mut Tally, how: &str) -> CaseResult {
+    let mut check_row = |mark: u16, cols: &[u16], rs: &mut Resolver<'_, '_>| -> CaseResult {
+        let hits = mark_hits(subs.iter().map(|s| (&s.mcov, &s.marks)), mark, rs)?;
+        for lig in cols {
+            for comp in 0..6u8 {
+                tally.queries += 1;
+                let got = lig_eval(subs, &hits, *lig, comp, rs)?;
+                let want = expect_lig(bs, mark, *lig, comp);
+                let ok = match (&got, &want) {
+                    (None, None) => true,
+                    (Some((_, m, a)), Some((wm, wa))) => ak_eq(m, &pal.anchor(wm.1, wm.2)) && ak_eq(a, &pal.anchor(wa.0, wa.1)),
+                    _ => false,
+                };
+                if want.is_some() {
+                    tally.rule_hits += 1;
+                } else {
+                    tally.nothing += 1;
+                }
+                if !ok {
+                    let w = want.map(|(wm, wa)| format!("mark class {} anchor {:?}, component anchor {:?}", wm.0, pal.anchor(wm.1, wm.2), pal.anchor(wa.0, wa.1))).unwrap_or("no attachment".into());
+                    let g = got.map(|(si, m, a)| format!("mark anchor {m:?}, component anchor {a:?} from subtable {si} of {}", subs.len())).unwrap_or("nothing".into());
+                    return Err(fail("lig-mismatch", format!("lookup {li} ({how}): mark {mark} on ligature {lig} component {comp}: compiled table yields {g}; expected {w}")));
+                }
+            }
+        }
+        Ok(())
+    };
+    let k1 = neighbours(bs.iter().flat_map(|b| b.marks.keys().copied()), &c.strangers);
+    let k2 = neighbours(bs.iter().flat_map(|b| b.ligs.keys().copied()), &c.strangers);
+    let budget = c.budget.max(1000) as u64 / 6;
+    if (k1.len() as u64) * (k2.len() as u64) <= budget {
+        for m in &k1 {
+            check_row(*m, &k2, rs)?;
+        }
+        return Ok(());
+    }
+    // one mark of every class against every ligature, every mark against a few ligatures, then a spread of rows
+    let mut reps: BTreeSet<u16> = BTreeSet::new();
+    for b in bs {
+        let mut first: BTreeMap<u8, u16> = BTreeMap::new();
+        for (g, v) in &b.marks {
+            first.entry(v.0).or_insert(*g);
+        }
+        reps.extend(first.values());
+    }
+    for m in &reps {
+        check_row(*m, &k2, rs)?;
+    }
+    let few = sample(&k2, 12, c.qsel);
+    for m in &k1 {
+        check_row(*m, &few, rs)?;
+    }
+    let room = (budget / k2.len().max(1) as u64) as usize;
+    for m in sample(&k1, room.max(4), c.qsel >> 8) {
+        if reps.insert(m) {
+            check_row(m, &k2, rs)?;
+        }
+    }
+    Ok(())
+}
+
+fn check_curs_lookup(li: usize, c: &GposCase, pal: &Pal, bs: &[CBModel], subs: &[CSub<'_>], rs: &mut Resolver<'_, '_>, tally: &mut Tally, how: &str) -> CaseResult {
+    let k = neighbours(bs.iter().flat_map(|b| b.items.keys().copied()), &c.strangers);
+    for g in k {
+        tally.queries += 1;
+        let got = curs_eval(subs, g, rs)?;
+        let want = bs.iter().find_map(|b| b.items.get(&g));
+        let (we, wx) = match want {
+            Some((mode, p, s)) => ((mode & 1 != 0).then(|| pal.anchor(*p, *s)), (mode & 2 != 0).then(|| pal.anchor(*p, s.wrapping_add(77)))),
+            None => (None, None),
+        };
+        if want.is_some() {
+            tally.rule_hits += 1;
+        } else {
+            tally.nothing += 1;
+        }
+        let same = |a: &Option<AK>, b: &Option<AK>| match (a, b) {
+            (None, None) => true,
+            (Some(a), Some(b)) => ak_eq(a, b),
+            _ => false,
+        };
+        if !same(&got.0, &we) || !same(&got.1, &wx) {
+            return Err(fail("cursive-mismatch", format!("lookup {li} ({how}): glyph {g}: compiled table yields entry {:?} exit {:?}; expected entry {we:?} exit {wx:?}", got.0, got.1)));
+        }
+    }
+    Ok(())
+}
+
+fn check_single_lookup(li: usize, c: &GposCase, pal: &Pal, bs: &[SBModel], subs: &[SSub<'_>], rs: &mut Resolver<'_, '_>, tally: &mut Tally, how: &str) -> CaseResult {
+    let k = neighbours(bs.iter().flat_map(|b| b.items.keys().copied()), &c.strangers);
+    for g in k {
+        tally.queries += 1;
+        let got = single_eval(subs, g, rs)?;
+        let want = bs.iter().find_map(|b| b.items.get(&g));
+        let ok = match (&got, want) {
+            (None, None) => true,
+            (Some((_, a)), None) => a.is_zero(),
+            (None, Some((p, s))) => pal.adj1(*p, *s).is_zero(),
+            (Some((_, a)), Some((p, s))) => adj_equiv(a, &pal.adj1(*p, *s)),
+        };
+        if want.is_some() {
+            tally.rule_hits += 1;
+        } else {
+            tally.nothing += 1;
+        }
+        if !ok {
+            let w = want.map(|(p, s)| render_adj(&pal.adj1(*p, *s))).unwrap_or("no rule (no adjustment)".into());
+            let gs = got.map(|(si, a)| format!("{} from subtable {si} of {}", render_adj(&a), subs.len())).unwrap_or("nothing".into());
+            return Err(fail("single-mismatch", format!("lookup {li} ({how}): glyph {g}: compiled table yields {gs}; expected {w}")));
+        }
+    }
+    Ok(())
+}
+
+fn check_class_id<E: std::fmt::Display>(ids: &mut BTreeMap<u8, u16>, cl: u8, g: u16, r: Result<u16, E>) -> CaseResult {
+    match r {
+        Ok(id) => match ids.get(&cl) {
+            Some(prev) if *prev != id => Err(fail("mark-class-id", format!("insert_mark returned class id {id} for class c{cl}, earlier {prev}"))),
+            Some(_) => Ok(()),
+            None => {
+                if ids.values().any(|v| *v == id) {
+                    return Err(fail("mark-class-id", format!("insert_mark returned class id {id} for the new class c{cl}, which is the id of another class")));
+                }
+                ids.insert(cl, id);
+                Ok(())
+            }
+        },
+        Err(e) => Err(fail("insert-mark", format!("insert_mark of a new glyph {g} failed: {e}"))),
+    }
+}
+
 fn test_gpos(c: &GposCase, stats: &Stats) -> CaseResult {
     let mut intern = Interner::new();
     let pal = Pal::new(c, &mut intern);
@@ -1556,19 +2059,7 @@ fn test_gpos(c: &GposCase, stats: &Stats) -> CaseResult {
                     let mut b = MarkToBaseBuilder::default();
                     let mut ids: BTreeMap<u8, u16> = BTreeMap::new();
                     for (g, cl, p, s) in &m.mark_ops {
-                        match b.insert_mark(GlyphId16::new(*g), &format!("c{cl}"), pal.anchor_builder(*p, *s)) {
-                            Ok(id) => match ids.get(cl) {
-                                Some(prev) if *prev != id => return Err(fail("mark-class-id", format!("insert_mark returned class id {id} for class c{cl}, earlier {prev}"))),
-                                Some(_) => {}
-                                None => {
-                                    if ids.values().any(|v| *v == id) {
-                                        return Err(fail("mark-class-id", format!("insert_mark returned class id {id} for the new class c{cl}, which is the id of another class")));
-                                    }
-                                    ids.insert(*cl, id);
-                                }
-                            },
-                            Err(e) => return Err(fail("insert-mark", format!("insert_mark of a new glyph {g} failed: {e}"))),
-                        }
+                        check_class_id(&mut ids, *cl, *g, b.insert_mark(GlyphId16::new(*g), &format!("c{cl}"), pal.anchor_builder(*p, *s)))?;
                     }
                     for (g, cl, p, s) in &m.base_ops {
                         b.insert_base(GlyphId16::new(*g), &format!("c{cl}"), pal.anchor_builder(*p, *s));
@@ -1586,6 +2077,102 @@ fn test_gpos(c: &GposCase, stats: &Stats) -> CaseResult {
                 lookups.push(PositionLookup::MarkToBase(lk));
                 models.push(LModel::Mark(ms));
             }
+            LKind::MarkMark(mbs) => {
+                let ms: Vec<MBModel> = mbs.iter().map(|b| mb_model(b, &pal)).collect();
+                let mut builders = Vec::new();
+                for m in &ms {
+                    let mut b = MarkToMarkBuilder::default();
+                    let mut ids: BTreeMap<u8, u16> = BTreeMap::new();
+                    for (g, cl, p, s) in &m.mark_ops {
+                        check_class_id(&mut ids, *cl, *g, b.insert_mark1(GlyphId16::new(*g), &format!("c{cl}"), pal.anchor_builder(*p, *s)))?;
+                    }
+                    for (g, cl, p, s) in &m.base_ops {
+                        b.insert_mark2(GlyphId16::new(*g), &format!("c{cl}"), pal.anchor_builder(*p, *s));
+                    }
+                    n_marks += m.marks.len();
+                    n_bases += m.bases.len();
+                    builders.push(b);
+                }
+                let lk = LookupBuilder::<MarkToMarkBuilder>::new_with_lookups(flag, l.mark_set, builders).build(&mut vs);
+                pre_counts.push(lk.subtables.len());
+                pre_f1.push(0);
+                lookups.push(PositionLookup::MarkToMark(lk));
+                models.push(LModel::MarkMark(ms));
+            }
+            LKind::Lig(lbs) => {
+                let ms: Vec<LBModel> = lbs.iter().map(|b| lb_model(b, &pal)).collect();
+                let mut builders = Vec::new();
+                for m in &ms {
+                    let mut b = MarkToLigBuilder::default();
+                    let mut ids: BTreeMap<u8, u16> = BTreeMap::new();
+                    for (g, cl, p, s) in &m.mark_ops {
+                        check_class_id(&mut ids, *cl, *g, b.insert_mark(GlyphId16::new(*g), &format!("c{cl}"), pal.anchor_builder(*p, *s)))?;
+                    }
+                    for g in &m.order {
+                        let lm = &m.ligs[g];
+                        if lm.direct {
+                            let comps: Vec<BTreeMap<String, AnchorBuilder>> =
+                                (0..lm.comps).map(|k| lm.anchors.iter().filter(|(key, _)| key.1 == k).map(|(key, (p, s))| (format!("c{}", key.0), pal.anchor_builder(*p, *s))).collect()).collect();
+                            b.add_ligature_components_directly(GlyphId16::new(*g), comps);
+                            stats.class("lig:components-directly");
+                        } else {
+                            for (cl, list) in &lm.calls {
+                                let sparse = list.iter().position(|a| a.is_none()).map(|i| list[i..].iter().any(|a| a.is_some())).unwrap_or(false);
+                                stats.class(if sparse { "lig:anchor-list-with-None-before-Some" } else { "lig:anchor-list-dense-or-trailing-None" });
+                                b.insert_ligature(GlyphId16::new(*g), &format!("c{cl}"), list.iter().map(|a| a.map(|(p, s)| pal.anchor_builder(p, s))).collect());
+                            }
+                        }
+                        n_bases += lm.anchors.len();
+                    }
+                    if !b.lig_glyphs().map(|g| g.to_u16()).eq(m.ligs.keys().copied()) {
+                        return Err(fail("lig-glyphs", "MarkToLigBuilder::lig_glyphs() differs from the inserted ligatures".into()));
+                    }
+                    n_marks += m.marks.len();
+                    builders.push(b);
+                }
+                let lk = LookupBuilder::<MarkToLigBuilder>::new_with_lookups(flag, l.mark_set, builders).build(&mut vs);
+                pre_counts.push(lk.subtables.len());
+                pre_f1.push(0);
+                lookups.push(PositionLookup::MarkToLig(lk));
+                models.push(LModel::Lig(ms));
+            }
+            LKind::Curs(cbs) => {
+                let ms = cb_models(cbs, &pal);
+                let mut builders = Vec::new();
+                for m in &ms {
+                    let mut b = CursivePosBuilder::default();
+                    for (g, mode, p, s) in &m.ops {
+                        stats.class(["cursive:neither", "cursive:entry-only", "cursive:exit-only", "cursive:both"][*mode as usize]);
+                        b.insert(GlyphId16::new(*g), (mode & 1 != 0).then(|| pal.anchor_builder(*p, *s)), (mode & 2 != 0).then(|| pal.anchor_builder(*p, s.wrapping_add(77))));
+                    }
+                    builders.push(b);
+                }
+                let lk = LookupBuilder::<CursivePosBuilder>::new_with_lookups(flag, l.mark_set, builders).build(&mut vs);
+                pre_counts.push(lk.subtables.len());
+                pre_f1.push(0);
+                lookups.push(PositionLookup::Cursive(lk));
+                models.push(LModel::Curs(ms));
+            }
+            LKind::Single(sbs) => {
+                let ms: Vec<SBModel> = sbs.iter().map(|b| sb_model(b, &pal)).collect();
+                let mut builders = Vec::new();
+                for m in &ms {
+                    let mut b = SinglePosBuilder::default();
+                    for (g, p, s) in &m.ops {
+                        let v = pal.vrb(*p, 0, *s);
+                        if !b.can_add(GlyphId16::new(*g), &v) {
+                            return Err(fail("single-can-add", format!("SinglePosBuilder::can_add({g}) is false for a glyph that has no value yet")));
+                        }
+                        b.insert(GlyphId16::new(*g), v);
+                    }
+                    builders.push(b);
+                }
+                let lk = LookupBuilder::<SinglePosBuilder>::new_with_lookups(flag, l.mark_set, builders).build(&mut vs);
+                pre_counts.push(lk.subtables.len());
+                pre_f1.push(0);
+                lookups.push(PositionLookup::Single(lk));
+                models.push(LModel::Single(ms));
+            }
         }
     }
     let (store, remap) = vs.build();
@@ -1596,7 +2183,8 @@ fn test_gpos(c: &GposCase, stats: &Stats) -> CaseResult {
         Err(e) => {
             // no compiled table: nothing the statement speaks about (counted, sampled)
             let m = format!("{e}");
-            stats.class(if m.contains("ack") { "dump:packing-failed" } else { "dump:validation-error" });
+            let kinds: BTreeSet<&str> = models.iter().map(|m| m.name()).collect();
+            stats.class(&format!("{} {:?}", if m.contains("ack") { "dump:packing-failed" } else { "dump:validation-error" }, kinds));
             if stats.want_sample() {
                 stats.sample(serde_json::json!({"stage": "gpos", "dump_error": m.chars().take(160).collect::<String>(), "pair_rules": n_pair_rules, "class_rules": n_class_rules, "marks": n_marks, "base_anchors": n_bases}));
             }
@@ -1611,25 +2199,36 @@ fn test_gpos(c: &GposCase, stats: &Stats) -> CaseResult {
     let mut tally = Tally { queries: 0, rule_hits: 0, zero_hits: 0, nothing: 0 };
     let (mut any_ext, mut any_split) = (false, false);
     let mut shape = Vec::new();
-    for (li, ((o, m), l)) in out.iter().zip(&models).zip(&c.lookups).enumerate() {
+    for (li, ((o, m), l)) in out.into_iter().zip(&models).zip(&c.lookups).enumerate() {
         let want_flag = lookup_flag(l).to_bits();
         if o.flag != want_flag || o.mark_set != l.mark_set {
             return Err(fail("lookup-flag", format!("lookup {li}: compiled flag {:#06x} / mark filtering set {:?}, supplied {want_flag:#06x} / {:?}", o.flag, o.mark_set, l.mark_set)));
         }
-        let n_out = match &o.subs {
-            Subs::Pair(s) => s.len(),
-            Subs::Mark(s) => s.len(),
-        };
+        let n_out = o.subs.len();
         let split = n_out > pre_counts[li];
         if n_out < pre_counts[li] {
             return Err(fail("subtable-count", format!("lookup {li}: {} subtables built, {n_out} compiled", pre_counts[li])));
         }
         any_ext |= o.ext;
         any_split |= split;
-        let how = format!("{}{}{} subtables, {} before compilation", if o.ext { "extension, " } else { "" }, if split { "split, " } else { "" }, n_out, pre_counts[li]);
-        match (&o.subs, m) {
-            (Subs::Pair(subs), LModel::Pair(bs)) => {
-                stats.class("lookup:pairpos");
+        let how = format!("{}, {}{}{} subtables, {} before compilation", m.name(), if o.ext { "extension, " } else { "" }, if split { "split, " } else { "" }, n_out, pre_counts[li]);
+        let (mut ps, mut mks, mut lgs, mut cs, mut ss) = (Vec::new(), Vec::new(), Vec::new(), Vec::new(), Vec::new());
+        for s in o.subs {
+            match s {
+                AnySub::Pair(x) => ps.push(x),
+                AnySub::Mark(x) | AnySub::MarkMark(x) => mks.push(x),
+                AnySub::Lig(x) => lgs.push(x),
+                AnySub::Curs(x) => cs.push(x),
+                AnySub::Single(x) => ss.push(x),
+            }
+        }
+        stats.class(&format!("lookup:{}", m.name()));
+        if o.ext {
+            stats.class(&format!("promoted-to-extension:{}", m.name()));
+        }
+        match m {
+            LModel::Pair(bs) => {
+                let subs = &ps;
                 for s in subs {
                     stats.class(match s {
                         PSub::F1 { .. } => "pairpos-format1-subtable",
@@ -1648,14 +2247,23 @@ fn test_gpos(c: &GposCase, stats: &Stats) -> CaseResult {
                 }
                 check_pair_lookup(li, c, &pal, bs, subs, &mut rs, &mut tally, &how)?;
             }
-            (Subs::Mark(subs), LModel::Mark(bs)) => {
-                stats.class("lookup:marktobase");
+            LModel::Mark(bs) | LModel::MarkMark(bs) => {
                 if split {
                     stats.class("split:marktobase-lookup");
                 }
-                check_mark_lookup(li, c, &pal, bs, subs, &mut rs, &mut tally, &how)?;
+                check_mark_lookup(li, c, &pal, bs, &mks, &mut rs, &mut tally, &how)?;
             }
-            _ => unreachable!(),
+            LModel::Lig(bs) => check_lig_lookup(li, c, &pal, bs, &lgs, &mut rs, &mut tally, &how)?,
+            LModel::Curs(bs) => check_curs_lookup(li, c, &pal, bs, &cs, &mut rs, &mut tally, &how)?,
+            LModel::Single(bs) => {
+                for s in &ss {
+                    stats.class(match s.t {
+                        rg::SinglePos::Format1(_) => "singlepos-format1-subtable",
+                        rg::SinglePos::Format2(_) => "singlepos-format2-subtable",
+                    });
+                }
+                check_single_lookup(li, c, &pal, bs, &ss, &mut rs, &mut tally, &how)?;
+            }
         }
         if o.ext {
             stats.class("promoted-to-extension");
@@ -1767,26 +2375,70 @@ fn pb(t: u8, what: u8) -> BoxedStrategy<PB> {
         .boxed()
 }
 fn mb(t: u8) -> BoxedStrategy<MB> {
+    mb_sized(t, false)
+}
+/// `unsplittable`: sizes for MarkToMark, whose subtables cannot be split and must stay under 64 KiB
+fn mb_sized(t: u8, unsplittable: bool) -> BoxedStrategy<MB> {
     let marks = proptest::collection::vec((glyph(), any::<u8>(), any::<u8>(), any::<i16>()), if t == 0 { 0..14 } else { 0..5 });
     let bases = proptest::collection::vec((glyph(), any::<u8>(), any::<u8>(), any::<i16>()), if t == 0 { 0..18 } else { 0..5 });
-    let (nm, nb) = match t {
-        0 => (1u16..10, 1u16..12),
-        1 => (50u16..900, 100u16..1600),
+    let (nm, nb) = match (t, unsplittable) {
+        (0, _) => (1u16..10, 1u16..12),
+        (_, true) => (30u16..500, 50u16..700),
+        (1, _) => (50u16..900, 100u16..1600),
         _ => (500u16..3000, 1000u16..4000),
     };
     let mblock = (gbase(t), nm, 1u8..3, any::<bool>(), any::<u8>(), prop_oneof![1 => Just(0u16), 4 => any::<u16>()]).prop_map(|(start, n, stride, interleave, apal, coef)| MBlock { start, n, stride, interleave, apal, coef });
     let bblock = (gbase(t), nb, 1u8..3, prop_oneof![100u8..=255, Just(255u8)], any::<u8>(), prop_oneof![1 => Just(0u16), 4 => any::<u16>()]).prop_map(|(start, n, stride, density, apal, coef)| BBlock { start, n, stride, density, apal, coef });
     let p = if t == 0 { 0.4 } else { 1.0 };
-    (if t == 0 { 1u8..5 } else { 2u8..9 }, marks, opt(p, mblock), bases, opt(p, bblock))
+    (if t == 0 { 1u8..5 } else if unsplittable { 1u8..6 } else { 2u8..9 }, marks, opt(p, mblock), bases, opt(p, bblock))
         .prop_map(|(n_classes, marks, mblock, bases, bblock)| MB { n_classes, marks, mblock, bases, bblock })
         .boxed()
 }
+fn lb(t: u8) -> BoxedStrategy<LB> {
+    let mark = (glyph(), any::<u8>(), any::<u8>(), any::<i16>());
+    let cls = (any::<u8>(), prop_oneof![3 => any::<u8>(), 1 => Just(0u8), 1 => Just(0xFFu8), 1 => prop_oneof![Just(0b10u8), Just(0b100), Just(0b1010), Just(0b10100), Just(0b11000), Just(0b01101)]], any::<u8>(), any::<i16>());
+    let lig = (glyph(), 1u8..=5, proptest::bool::weighted(0.2), proptest::collection::vec(cls, 0..5)).prop_map(|(glyph, comps, direct, classes)| LigSpec { glyph, comps, direct, classes });
+    let marks = proptest::collection::vec(mark, if t == 0 { 1..10 } else { 0..4 });
+    let ligs = proptest::collection::vec(lig, if t == 0 { 0..8 } else { 0..4 });
+    let (nm, nl) = match t {
+        0 => (1u16..8, 1u16..8),
+        1 => (20u16..400, 30u16..300),
+        _ => (20u16..600, 200u16..1000),
+    };
+    let mblock = (gbase(t), nm, 1u8..3, any::<bool>(), any::<u8>(), any::<u16>()).prop_map(|(start, n, stride, interleave, apal, coef)| MBlock { start, n, stride, interleave, apal, coef });
+    let lblock = (gbase(t), nl, 1u8..3, 0u8..5, any::<u16>(), prop_oneof![60u8..=255, Just(255u8)], any::<u8>(), prop_oneof![1 => Just(0u16), 4 => any::<u16>()])
+        .prop_map(|(start, n, stride, comps_a, mask_coef, density, apal, coef)| LBlock { start, n, stride, comps_a, mask_coef, density, apal, coef });
+    let p = if t == 0 { 0.3 } else { 1.0 };
+    (1u8..5, marks, opt(p, mblock), ligs, opt(p, lblock)).prop_map(|(n_classes, marks, mblock, ligs, lblock)| LB { n_classes, marks, mblock, ligs, lblock }).boxed()
+}
+fn cb(t: u8) -> BoxedStrategy<CB> {
+    let items = proptest::collection::vec((glyph(), 0u8..4, any::<u8>(), any::<i16>()), if t == 0 { 0..14 } else { 0..4 });
+    let n = if t == 0 { 1u16..10 } else { 200u16..4000 };
+    let block = (gbase(t), n, 1u8..3, any::<u8>(), any::<u16>());
+    (items, opt(if t == 0 { 0.3 } else { 1.0 }, block)).prop_map(|(items, block)| CB { items, block }).boxed()
+}
+fn sb(t: u8) -> BoxedStrategy<SB> {
+    let salt = prop_oneof![2 => Just(0i16), 1 => 0i16..3, 1 => any::<i16>()];
+    let items = proptest::collection::vec((glyph(), any::<u8>(), salt), if t == 0 { 0..16 } else { 0..4 });
+    let n = match t {
+        0 => 1u16..12,
+        1 => 100u16..4000,
+        _ => 1000u16..9000,
+    };
+    let block = (gbase(t), n, 1u8..3, any::<u8>(), 1u8..4, any::<u16>(), prop_oneof![Just(1u8), 2u8..6, Just(255u8)]);
+    (items, opt(if t == 0 { 0.4 } else { 1.0 }, block)).prop_map(|(items, block)| SB { items, block }).boxed()
+}
 fn lspec(t: u8) -> BoxedStrategy<LSpec> {
+    let w = if t == 0 { 3 } else { 2 };
     let kind = prop_oneof![
         3 => proptest::collection::vec(pb(t, 0), 1..3).prop_map(LKind::Pair),
         3 => proptest::collection::vec(pb(t, 1), 1..3).prop_map(LKind::Pair),
         2 => proptest::collection::vec(pb(t, 2), 1..3).prop_map(LKind::Pair),
         3 => proptest::collection::vec(mb(t), 1..3).prop_map(LKind::Mark),
+        w => proptest::collection::vec(mb_sized(t, true), 1..3).prop_map(LKind::MarkMark),
+        w + 1 => proptest::collection::vec(lb(t), 1..3).prop_map(LKind::Lig),
+        w => proptest::collection::vec(cb(t), 1..3).prop_map(LKind::Curs),
+        w => proptest::collection::vec(sb(t), 1..3).prop_map(LKind::Single),
     ];
     (prop_oneof![2 => Just(0u16), 1 => any::<u16>()], proptest::option::weighted(0.3, any::<u16>()), kind).prop_map(|(flags, mark_set, kind)| LSpec { flags, mark_set, kind }).boxed()
 }
@@ -1797,7 +2449,7 @@ fn gpos_strategy(t: u8, budget: u32) -> BoxedStrategy<GposCase> {
     // lookups: small cases are all small; bigger tiers mix one or two big lookups with small ones
     let lookups = match t {
         0 => proptest::collection::vec(lspec(0), 1..4).boxed(),
-        _ => (proptest::collection::vec(lspec(t), 1..3), proptest::collection::vec(lspec(0), 0..2), any::<bool>())
+        _ => (proptest::collection::vec(lspec(t), 1..4), proptest::collection::vec(lspec(0), 0..2), any::<bool>())
             .prop_map(|(mut big, mut small, front)| {
                 if front {
                     small.append(&mut big);
@@ -1841,15 +2493,15 @@ fn main() {
     let ctx = Ctx::from_args("C16");
     ctx.set_rule(
         "sets: proptest glyph sets (sparse / runs / dense / combs / nearly-all, extremes 0 and 65535) fed to CoverageTableBuilder (5 construction paths), ClassDefBuilder (both class-0 modes, overlapping and repeated candidates) and ClassDef::from_iter; non-trivial = both binary formats (1 and 2) occurred among the tables of the case. \
-         gpos-*: rule sets for 1..4 lookups (PairPos: glyph pairs with first-wins duplicates, regular pair blocks incl. identical pair sets, class rules on disjoint class partitions; MarkToBase: 1..8 classes, anchor formats 1-3) with a palette of value records (1..8 fields, device and variation-index records), compiled through PairPosBuilder/MarkToBaseBuilder, LookupBuilder, Gpos, dump_table; small = explicit rules, medium = around 64 KiB, large = several x 64 KiB. \
+         gpos-*: rule sets for 1..4 lookups of all six non-contextual GPOS builders (MarkToLig: 1..5 components, per class an anchor list with None at leading/middle/trailing positions, classes absent, add_ligature_components_directly; MarkToMark; Cursive: entry-only/exit-only/both/neither; SinglePos: equal and differing records; PairPos: glyph pairs with first-wins duplicates, regular pair blocks incl. identical pair sets, class rules on disjoint class partitions; MarkToBase: 1..8 classes, anchor formats 1-3) with a palette of value records (1..8 fields, device and variation-index records), compiled through the public builders, LookupBuilder, Gpos, dump_table; small = explicit rules, medium = around 64 KiB, large = several x 64 KiB. \
          Non-trivial = the compiled GPOS has a lookup promoted to extension or a lookup with more subtables than the builders produced (split); distinct by hash of the case.",
     );
-    ctx.assume("read-fonts parses the tables the walker navigates (coverage/classdef get, record arrays, offsets); precedence model: per PairPosBuilder glyph-pair rules first (first inserted wins), then its class subtable decides for every first glyph it covers; builders of a lookup in order; mark/base: first builder holding the mark whose base has an anchor for the mark's class; an all-zero adjustment and 'no subtable applied' are the same observable; a case whose dump_table fails (packing) is counted, not judged");
+    ctx.assume("read-fonts parses the tables the walker navigates (coverage/classdef get, record arrays, offsets); precedence model: per PairPosBuilder glyph-pair rules first (first inserted wins), then its class subtable decides for every first glyph it covers; builders of a lookup in order; mark/base, mark/mark, mark/ligature component: first builder holding the mark whose base (mark2, component) has an anchor for the mark's class; cursive and single: the first builder that mentions the glyph; an all-zero adjustment and 'no subtable applied' are the same observable; a case whose dump_table fails (packing) is counted, not judged");
     ctx.index_stage("regress-empty-markbase", Isolation::Threads, 3, regress_case, test_gpos);
     ctx.prop_stage("sets", Isolation::Threads, ctx.n(8_000, 100_000), sets_strategy, test_sets);
     let budget: u32 = if ctx.quick() { 400_000 } else { 1_500_000 };
     ctx.prop_stage("gpos-small", Isolation::Threads, ctx.n(2_000, 24_000), move || gpos_strategy(0, budget), test_gpos);
-    ctx.prop_stage("gpos-medium", Isolation::Threads, ctx.n(260, 2_400), move || gpos_strategy(1, budget), test_gpos);
-    ctx.prop_stage("gpos-large", Isolation::Threads, ctx.n(64, 480), move || gpos_strategy(2, budget), test_gpos);
+    ctx.prop_stage("gpos-medium", Isolation::Threads, ctx.n(400, 2_400), move || gpos_strategy(1, budget), test_gpos);
+    ctx.prop_stage("gpos-large", Isolation::Threads, ctx.n(100, 480), move || gpos_strategy(2, budget), test_gpos);
     ctx.finish();
 }
